@@ -209,8 +209,25 @@ def run_kani(src, harnesses, log, harness_timeout=300, extra=None, overall_timeo
     if not thorough:
         ENV.pop("VERIF_THOROUGH", None)
     rc, text, wall = run(cmd, cwd=src, timeout=overall_timeout, out=log, env=env)
+    reap_orphan_solvers()
     recs = parse_kani_output(text)
     return rc, text, wall, recs
+
+
+def reap_orphan_solvers():
+    """Kani kills cbmc on a harness timeout but not the external SMT/SAT solver it spawned (cvc5, kissat):
+    the orphan (re-parented to init) keeps a core busy for hours.  Kill solver processes whose parent is 1."""
+    try:
+        out = subprocess.run(["ps", "-eo", "pid=,ppid=,args="], stdout=subprocess.PIPE).stdout.decode()
+        for line in out.splitlines():
+            parts = line.split(None, 2)
+            if len(parts) == 3 and parts[1] == "1" and (parts[2].startswith("cvc5 --lang smtlib") or parts[2].startswith("kissat ")):
+                try:
+                    os.kill(int(parts[0]), 9)
+                except OSError:
+                    pass
+    except Exception:
+        pass
 
 
 def compile_error_summary(text):
